@@ -287,6 +287,11 @@ def gen_text_tokens(rng, n):
                 toks[j] = "t" + toks[j].replace("#", "")
         elif r < 0.5:
             toks[j] = str(int(rng.integers(-50, 50)))        # numeric-looking cell inside a text column
+        elif r < 0.58:
+            # non-ASCII text (file and operator names): accented, Greek, CJK, and letters whose UTF-8 bytes look like Latin-1
+            # blanks (U+00A0 is whitespace and stays out; the second byte of 'Å', 'à', 'Ѕ' is 0x85 / 0xA0)
+            toks[j] = str(rng.choice(["grid_\u00e9_001.mrc", "\u00c5ngstr\u00f6m", "caf\u00e0", "\u03b1\u03b2\u03b3", "\u4e2d\u6587.mrc", "na\u00efve/\u00f6l",
+                                      "\u0405x", "Ji\u0159\u00ed", "\u00b5m", "10\u00b0", "x\u2009y".replace("\u2009", "_"), "\u00df", "\U0001d54f"]))
     if n and all(star.is_numeric_token(t) for t in toks):
         toks[int(rng.integers(0, n))] = "TS_01/7"
     toks = [t if not star.bad_text_token(t) else "v" + str(k) for k, t in enumerate(toks)]
